@@ -486,7 +486,390 @@ def source_facts(repo_src: pathlib.Path):
             if isinstance(a0, ast.Name) and a0.id == "self":
                 stores_on_self = True
     facts["cached_property_per_instance"] = bool(stores_in_instance and not stores_on_self)
+
+    # 9. file post-processors: the code Model/FilePP.lean transcribes
+    facts.update(file_pp_facts(repo_src))
+
+    # 10. nothing but the command line, the declared environment variables and the package itself is looked at
+    facts["ambient_probes"] = ambient_probes(repo_src)
+    facts["no_undeclared_ambient_inputs"] = not facts["ambient_probes"]
     return facts
+
+
+
+# =====================================================================================================================
+# file post-processors: the code Model/FilePP.lean was transcribed from
+# =====================================================================================================================
+# The statements of the small functions the model transcribes, docstrings removed.  A function whose AST no longer equals
+# the AST of this text is reported by name (fact `file_pp_source_matches_model`): the model has to be looked at again.
+FILE_PP_TRANSCRIBED = {
+    ("nunavut/_postprocessors.py", "SetFileMode", "__init__"): """
+def __init__(self, file_mode: int):
+    self._file_mode = file_mode
+""",
+    ("nunavut/_postprocessors.py", "SetFileMode", "__call__"): """
+def __call__(self, generated: pathlib.Path) -> pathlib.Path:
+    generated.chmod(self._file_mode)
+    return generated
+""",
+    ("nunavut/_postprocessors.py", "ExternalProgramEditInPlace", "__init__"): """
+def __init__(self, command_line: typing.List[str], check: bool = True):
+    self._command_line = command_line
+    self._check = check
+""",
+    ("nunavut/_postprocessors.py", "ExternalProgramEditInPlace", "__call__"): """
+def __call__(self, generated: pathlib.Path) -> pathlib.Path:
+    run_args = self._command_line + [str(generated)]
+    if len(run_args) > 0 and str(run_args[0]).endswith(".py"):
+        run_args = [sys.executable] + run_args
+    subprocess_run(run_args, check=self._check)
+    return generated
+""",
+    ("nunavut/cli/runners.py", "ArgparseRunner", "_build_ext_program_postprocessor"): """
+def _build_ext_program_postprocessor(self, program: str) -> FilePostProcessor:
+    subprocess_args = [program]
+    if hasattr(self._args, "pp_run_program_arg") and self._args.pp_run_program_arg is not None:
+        for program_arg in self._args.pp_run_program_arg:
+            subprocess_args.append(program_arg)
+    return ExternalProgramEditInPlace(subprocess_args)
+""",
+    ("nunavut/cli/runners.py", "ArgparseRunner", "_build_post_processor_list_from_args"): """
+def _build_post_processor_list_from_args(self) -> typing.List[PostProcessor]:
+    post_processors: typing.List[PostProcessor] = []
+    if self._args.pp_trim_trailing_whitespace:
+        post_processors.append(TrimTrailingWhitespace())
+    if hasattr(self._args, "pp_max_emptylines") and self._args.pp_max_emptylines is not None:
+        post_processors.append(LimitEmptyLines(self._args.pp_max_emptylines))
+    if hasattr(self._args, "pp_run_program") and self._args.pp_run_program is not None:
+        post_processors.append(self._build_ext_program_postprocessor(self._args.pp_run_program))
+
+    post_processors.append(SetFileMode(self._args.file_mode))
+
+    return post_processors
+""",
+    ("nunavut/jinja/__init__.py", "CodeGenerator", "_handle_overwrite"): """
+def _handle_overwrite(self, output_path: pathlib.Path, allow_overwrite: bool) -> None:
+    if output_path.exists():
+        if allow_overwrite:
+            output_path.chmod(output_path.stat().st_mode | 0o220)
+        else:
+            raise PermissionError("{output_path} exists and allow_overwrite is False.")
+""",
+    ("nunavut/jinja/__init__.py", "SupportGenerator", "_copy_header"): """
+def _copy_header(
+    self,
+    resource: pathlib.Path,
+    target: pathlib.Path,
+    is_dryrun: bool,
+    allow_overwrite: bool,
+    line_pps: typing.List["nunavut._postprocessors.LinePostProcessor"],
+    file_pps: typing.List["nunavut._postprocessors.FilePostProcessor"],
+) -> pathlib.Path:
+    if not is_dryrun:
+        self._handle_overwrite(target, allow_overwrite)
+        target.parent.mkdir(parents=True, exist_ok=True)
+        if len(line_pps) == 0:
+            shutil.copy(str(resource), str(target))
+        else:
+            self._copy_header_using_line_pps(resource, target, line_pps)
+        for file_pp in file_pps:
+            target = file_pp(target)
+    return target
+""",
+}
+
+
+def _strip_docstrings(fn):
+    """Function definition without docstrings, with string constants of raise / log messages blanked (wording is not logic)."""
+    fn = ast.parse(ast.unparse(fn)).body[0]
+    for node in ast.walk(fn):
+        if isinstance(node, (ast.FunctionDef, ast.AsyncFunctionDef, ast.ClassDef)) and node.body and \
+                isinstance(node.body[0], ast.Expr) and isinstance(node.body[0].value, ast.Constant) and isinstance(node.body[0].value.value, str):
+            node.body = node.body[1:] or [ast.Pass()]
+    for node in ast.walk(fn):
+        if isinstance(node, ast.Raise) and isinstance(node.exc, ast.Call):
+            node.exc.args = []
+    fn.body = [st for st in fn.body if not (isinstance(st, ast.Expr) and isinstance(st.value, ast.Call) and
+                                            (Scanner._dotted(st.value.func) or "").startswith("logger."))]
+    return fn
+
+
+def _find_method(repo_src, path, cls, name):
+    tree = ast.parse((repo_src / path).read_text(encoding="utf-8"))
+    for node in ast.walk(tree):
+        if isinstance(node, ast.ClassDef) and node.name == cls:
+            for sub in node.body:
+                if isinstance(sub, ast.FunctionDef) and sub.name == name:
+                    return sub
+    return None
+
+
+def _pp_subclasses(repo_src, root_name):
+    """(module path, ClassDef) of every class of the package deriving (transitively, by simple name) from `root_name`."""
+    classes = []
+    for f in sorted((repo_src / "nunavut").rglob("*.py")):
+        rel = f.relative_to(repo_src)
+        if "jinja2" in rel.parts or "markupsafe" in rel.parts:
+            continue
+        for node in ast.walk(ast.parse(f.read_text(encoding="utf-8"))):
+            if isinstance(node, ast.ClassDef):
+                classes.append((rel.as_posix(), node))
+    derived, changed = {root_name}, True
+    while changed:
+        changed = False
+        for _, c in classes:
+            if c.name not in derived and any((Scanner._dotted(b) or "").rsplit(".", 1)[-1] in derived for b in c.bases):
+                derived.add(c.name); changed = True
+    return [(m, c) for m, c in classes if c.name in derived and c.name != root_name]
+
+
+def _state_writes(fn):
+    """Writes to object state in a method body: [(line, what)].  `self.x = …`, `self.x[…] = …`, `self.x += …`, `del self.x`,
+    mutating method on `self.x`, setattr(self, …) — and the same through a local alias of `self.x` (`a = self.x; a += […]`)."""
+    aliases = set()
+    changed = True
+    def is_state(e):
+        while isinstance(e, (ast.Subscript, ast.Attribute)) and not (isinstance(e, ast.Attribute) and isinstance(e.value, ast.Name) and e.value.id == "self"):
+            e = e.value
+        if isinstance(e, ast.Attribute) and isinstance(e.value, ast.Name) and e.value.id == "self":
+            return True
+        return isinstance(e, ast.Name) and e.id in aliases
+    def may_alias(v):
+        if isinstance(v, ast.IfExp):
+            return may_alias(v.body) or may_alias(v.orelse)
+        if isinstance(v, ast.BoolOp):
+            return any(may_alias(x) for x in v.values)
+        if isinstance(v, ast.NamedExpr):
+            return may_alias(v.value)
+        return is_state(v) and not isinstance(v, ast.Call)
+    while changed:
+        changed = False
+        for node in ast.walk(fn):
+            tv = []
+            if isinstance(node, ast.Assign):
+                tv = [(t, node.value) for t in node.targets]
+            elif isinstance(node, ast.AnnAssign) and node.value is not None:
+                tv = [(node.target, node.value)]
+            elif isinstance(node, ast.NamedExpr):
+                tv = [(node.target, node.value)]
+            for t, v in tv:
+                if isinstance(t, ast.Name) and t.id not in aliases and may_alias(v):
+                    aliases.add(t.id); changed = True
+    out = []
+    for node in ast.walk(fn):
+        if isinstance(node, ast.Assign):
+            for t in node.targets:
+                for tt in (t.elts if isinstance(t, (ast.Tuple, ast.List)) else [t]):
+                    if isinstance(tt, (ast.Attribute, ast.Subscript)) and is_state(tt):
+                        out.append((node.lineno, f"assigns {ast.unparse(tt)}"))
+        elif isinstance(node, ast.AnnAssign) and node.value is not None:
+            if isinstance(node.target, (ast.Attribute, ast.Subscript)) and is_state(node.target):
+                out.append((node.lineno, f"assigns {ast.unparse(node.target)}"))
+        elif isinstance(node, ast.AugAssign):
+            if is_state(node.target):
+                out.append((node.lineno, f"updates {ast.unparse(node.target)} in place ({type(node.op).__name__})"))
+        elif isinstance(node, ast.Delete):
+            for t in node.targets:
+                if is_state(t):
+                    out.append((node.lineno, f"deletes {ast.unparse(t)}"))
+        elif isinstance(node, ast.Call):
+            if isinstance(node.func, ast.Attribute) and node.func.attr in MUTATORS and is_state(node.func.value):
+                out.append((node.lineno, f"calls {ast.unparse(node.func)}()"))
+            if (Scanner._dotted(node.func) or "") in ("setattr", "delattr", "object.__setattr__") and node.args and \
+                    isinstance(node.args[0], ast.Name) and node.args[0].id == "self":
+                out.append((node.lineno, f"{ast.unparse(node.func)}(self, …)"))
+    return sorted(set(out))
+
+
+def file_pp_facts(repo_src):
+    facts = {}
+    # (1) no FilePostProcessor of the package writes object state outside __init__
+    impure = []
+    for mod, cl in _pp_subclasses(repo_src, "FilePostProcessor"):
+        for sub in cl.body:
+            if isinstance(sub, ast.FunctionDef) and sub.name not in ("__init__", "__new__"):
+                for line, what in _state_writes(sub):
+                    impure.append({"class": cl.name, "method": sub.name, "where": f"{mod}:{line}", "what": what})
+    facts["file_pp_state_writes"] = impure
+    facts["file_pp_calls_pure"] = not impure
+    # (1b) every attribute a LinePostProcessor writes while processing lines is re-initialised by its reset()
+    unreset = []
+    for mod, cl in _pp_subclasses(repo_src, "LinePostProcessor"):
+        methods = {sub.name: sub for sub in cl.body if isinstance(sub, ast.FunctionDef)}
+        written = set()
+        for name, sub in methods.items():
+            if name in ("__init__", "__new__", "reset"):
+                continue
+            for line, what in _state_writes(sub):
+                written.add((what.split()[-1] if what.startswith(("assigns", "deletes")) else what.split()[1], line, name))
+        if written:
+            reset_assigns = set()
+            if "reset" in methods:
+                for node in ast.walk(methods["reset"]):
+                    if isinstance(node, ast.Assign):
+                        reset_assigns |= {ast.unparse(t) for t in node.targets}
+            for attr, line, name in sorted(written):
+                base_attr = attr.split("[")[0].split("(")[0]
+                base_attr = ".".join(base_attr.split(".")[:2])
+                if base_attr not in reset_assigns:
+                    unreset.append({"class": cl.name, "method": name, "where": f"{mod}:{line}", "attribute": base_attr})
+    facts["line_pp_state_not_reset"] = unreset
+    facts["line_pp_reset_complete"] = not unreset
+    # (2) the transcribed functions are what the model was written from
+    diffs = []
+    for (path, cls, name), text in FILE_PP_TRANSCRIBED.items():
+        fn = _find_method(repo_src, path, cls, name)
+        if fn is None:
+            diffs.append({"function": f"{path}:{cls}.{name}", "what": "not found"})
+            continue
+        want = _strip_docstrings(ast.parse(textwrap.dedent(text)).body[0])
+        got = _strip_docstrings(fn)
+        if ast.dump(want) != ast.dump(got):
+            ws, gs = [ast.unparse(x) for x in want.body], [ast.unparse(x) for x in got.body]
+            i = next((k for k in range(max(len(ws), len(gs))) if k >= len(ws) or k >= len(gs) or ws[k] != gs[k]), None)
+            diffs.append({"function": f"{path}:{cls}.{name}",
+                          "what": "signature differs" if i is None else f"statement {i + 1} differs",
+                          "transcribed": None if i is None or i >= len(ws) else ws[i][:200],
+                          "found": None if i is None or i >= len(gs) else gs[i][:200]})
+    facts["file_pp_source_diffs"] = diffs
+    facts["file_pp_source_matches_model"] = not diffs
+    # (3) the generators' loops: classification (reset + collect | collect | raise), then — after the file is closed —
+    #     `for file_pp in file_pps: <path> = file_pp(<path>)`
+    problems = []
+
+    def classification_ok(fn, want_reset):
+        for node in ast.walk(fn):
+            if isinstance(node, ast.For) and isinstance(node.target, ast.Name) and ast.unparse(node.iter) == "self._post_processors":
+                pp = node.target.id
+                if len(node.body) != 1 or not isinstance(node.body[0], ast.If):
+                    return "the loop over self._post_processors is not a single if / elif / else"
+                i1 = node.body[0]
+                t1 = ast.unparse(i1.test)
+                if not (t1.startswith(f"isinstance({pp}, ") and t1.endswith("LinePostProcessor)")):
+                    return "first branch does not test for LinePostProcessor"
+                b1 = [ast.unparse(x) for x in i1.body]
+                if b1 != ([f"{pp}.reset()"] if want_reset else []) + [f"line_pps.append({pp})"]:
+                    return f"LinePostProcessor branch is {b1}"
+                if len(i1.orelse) != 1 or not isinstance(i1.orelse[0], ast.If):
+                    return "no elif branch"
+                i2 = i1.orelse[0]
+                t2 = ast.unparse(i2.test)
+                if not (t2.startswith(f"isinstance({pp}, ") and t2.endswith("FilePostProcessor)")):
+                    return "second branch does not test for FilePostProcessor"
+                if [ast.unparse(x) for x in i2.body] != [f"file_pps.append({pp})"]:
+                    return "FilePostProcessor branch does not just collect the object"
+                if len(i2.orelse) != 1 or not isinstance(i2.orelse[0], ast.Raise) or "ValueError" not in ast.unparse(i2.orelse[0]):
+                    return "else branch does not raise ValueError"
+                return None
+        return "no loop over self._post_processors"
+
+    def file_pp_loop_ok(fn, var, after_types):
+        """top-level (or inside `if not is_dryrun`) `for file_pp in file_pps: var = file_pp(var)` after a statement of after_types"""
+        bodies = [fn.body] + [n.body for n in fn.body if isinstance(n, ast.If)]
+        for body in bodies:
+            for i, st in enumerate(body):
+                if isinstance(st, ast.For) and ast.unparse(st.iter) == "file_pps":
+                    if [ast.unparse(x) for x in st.body] != [f"{var} = {st.target.id}({var})"] or st.orelse:
+                        return f"body of the file post-processor loop is {[ast.unparse(x) for x in st.body]}"
+                    if not any(isinstance(b, after_types) for b in body[:i]):
+                        return "the file post-processor loop does not follow the writing of the file"
+                    if any(isinstance(n, ast.For) and ast.unparse(n.iter) == "file_pps" for b in body[i + 1:] for n in ast.walk(b)):
+                        return "a second loop over file_pps"
+                    return None
+        return "no loop over file_pps"
+
+    gc = _find_method(repo_src, "nunavut/jinja/__init__.py", "CodeGenerator", "_generate_code")
+    ga = _find_method(repo_src, "nunavut/jinja/__init__.py", "SupportGenerator", "generate_all")
+    ch = _find_method(repo_src, "nunavut/jinja/__init__.py", "SupportGenerator", "_copy_header")
+    for label, fn, chk in (("CodeGenerator._generate_code: classification", gc, lambda f: classification_ok(f, True)),
+                           ("CodeGenerator._generate_code: file post-processor loop", gc, lambda f: file_pp_loop_ok(f, "output_path", (ast.With,))),
+                           ("SupportGenerator.generate_all: classification", ga, lambda f: classification_ok(f, False)),
+                           ("SupportGenerator._copy_header: file post-processor loop", ch, lambda f: file_pp_loop_ok(f, "target", (ast.If,)))):
+        if fn is None:
+            problems.append({"where": label, "what": "function not found"})
+        else:
+            r = chk(fn)
+            if r:
+                problems.append({"where": label, "what": r})
+    if gc is not None:
+        calls = [n for n in ast.walk(gc) if isinstance(n, ast.Call)]
+        ow = [c.lineno for c in calls if ast.unparse(c.func) == "self._handle_overwrite"]
+        withs = [n.lineno for n in gc.body if isinstance(n, ast.With)]
+        if len(ow) != 1 or not withs or not ow[0] < withs[0]:
+            problems.append({"where": "CodeGenerator._generate_code", "what": "_handle_overwrite is not called exactly once before the file is opened"})
+    facts["generator_pp_loop_problems"] = problems
+    facts["generator_runs_file_pps_once_in_order"] = not problems
+    return facts
+
+
+
+# =====================================================================================================================
+# undeclared ambient inputs of the glue code (command line, runners, language configuration, generators, post-processors)
+# =====================================================================================================================
+# environment variables the command line documents as inputs (`--lookup-dir` help text)
+DECLARED_ENV_VARS = {"DSDL_INCLUDE_PATH", "CYPHAL_PATH"}
+
+
+def ambient_probes(repo_src):
+    """Places of the package (bundled third-party code excluded) that look at something which is neither named on the command
+    line nor part of the package: a file-system path spelled as a relative string constant, the working / home directory,
+    environment variables other than the documented ones, temporary-file names.  [{where, what}]"""
+    out = []
+    for f in sorted((repo_src / "nunavut").rglob("*.py")):
+        rel = f.relative_to(repo_src)
+        if "jinja2" in rel.parts or "markupsafe" in rel.parts:
+            continue
+        tree = ast.parse(f.read_text(encoding="utf-8"))
+        parents = {}
+        for node in ast.walk(tree):
+            for ch in ast.iter_child_nodes(node):
+                parents[id(ch)] = node
+        funcs = {}
+        for node in ast.walk(tree):
+            if isinstance(node, (ast.FunctionDef, ast.AsyncFunctionDef)):
+                for sub in ast.walk(node):
+                    funcs.setdefault(id(sub), node.name)
+        for node in ast.walk(tree):
+            where = f"{rel.as_posix()}:{getattr(node, 'lineno', 0)}"
+            if isinstance(node, ast.Call):
+                dn = Scanner._dotted(node.func) or ""
+                last = dn.rsplit(".", 1)[-1]
+                a0 = node.args[0] if node.args else None
+                const = a0.value if isinstance(a0, ast.Constant) and isinstance(a0.value, str) else None
+                if last in ("Path", "PurePath", "PosixPath") or dn in ("open", "io.open", "os.open", "os.stat", "os.listdir", "os.scandir", "os.walk",
+                                                                         "os.path.exists", "os.path.isfile", "os.path.isdir", "os.path.lexists"):
+                    if const not in (None, "", "."):
+                        par = parents.get(id(node))
+                        joined = isinstance(par, ast.BinOp) and isinstance(par.op, ast.Div) and par.right is node
+                        if not joined and not const.startswith("/"):
+                            out.append({"where": where, "what": f"{dn}({const!r}): a path relative to the working directory"})
+                        elif const.startswith("/") or const.startswith("~"):
+                            out.append({"where": where, "what": f"{dn}({const!r}): a fixed location outside the inputs"})
+                if dn in ("os.getcwd", "os.getcwdb", "Path.cwd", "pathlib.Path.cwd", "Path.home", "pathlib.Path.home", "os.path.expanduser",
+                          "os.path.expandvars", "os.getenv", "os.environ.get", "os.putenv", "getpass.getuser", "os.getlogin", "socket.gethostname") \
+                        or last in ("expanduser", "expandvars"):
+                    if not (dn in ("os.getenv", "os.environ.get") and const in DECLARED_ENV_VARS):
+                        out.append({"where": where, "what": f"calls {dn or last}" + (f"({const!r})" if const else "")})
+                if dn.startswith("tempfile.") or last in ("mkstemp", "mkdtemp", "NamedTemporaryFile", "TemporaryDirectory", "mktemp", "gettempdir"):
+                    out.append({"where": where, "what": f"calls {dn or last}: a name chosen at random / a directory outside the inputs"})
+                if dn.startswith("uuid.") or dn.startswith("random.") or dn.startswith("secrets.") or dn == "os.urandom":
+                    out.append({"where": where, "what": f"calls {dn}"})
+                if last == "_extra_includes_from_env":
+                    if const not in DECLARED_ENV_VARS:
+                        out.append({"where": where, "what": f"reads the environment variable {ast.unparse(a0) if a0 is not None else '?'} (not a documented input)"})
+            if isinstance(node, ast.Attribute) and (Scanner._dotted(node) or "") == "os.environ":
+                par = parents.get(id(node))
+                key = None
+                if isinstance(par, ast.Subscript) and isinstance(par.slice, ast.Constant):
+                    key = par.slice.value
+                if isinstance(par, ast.Attribute) and par.attr == "get":
+                    continue      # reported as the call os.environ.get above
+                if key in DECLARED_ENV_VARS:
+                    continue
+                if funcs.get(id(node)) == "_extra_includes_from_env" and isinstance(par, ast.Subscript) and isinstance(par.slice, ast.Name):
+                    continue      # the documented lookup: its callers are checked above
+                out.append({"where": where, "what": "reads os.environ" + (f"[{key!r}]" if key else "")})
+    return out
 
 
 # process-wide containers that are known and modelled / harmless (id = module:Class.attr or module:NAME)
@@ -1507,6 +1890,19 @@ def emit_top(facts) -> str:
             f"def noUnlistedSharedContainers : Bool := {b(facts['no_unlisted_shared_containers'])}",
             "/-- No generator constructor compiles templates (`get_template` & co. only at generation time). -/",
             f"def templatesCompiledLazily : Bool := {b(facts['templates_compiled_lazily'])}",
+            "/-- No `FilePostProcessor` of the package writes object state outside `__init__` (directly or through a local alias). -/",
+            f"def filePPCallsPure : Bool := {b(facts['file_pp_calls_pure'])}",
+            "/-- Every attribute a `LinePostProcessor` of the package writes while processing lines is assigned in its `reset()`. -/",
+            f"def linePPResetComplete : Bool := {b(facts['line_pp_reset_complete'])}",
+            "/-- `SetFileMode`, `ExternalProgramEditInPlace`, `_build_post_processor_list_from_args`, `_build_ext_program_postprocessor`,",
+            "`_handle_overwrite`, `_copy_header` have the statements `Model/FilePP.lean` was transcribed from. -/",
+            f"def filePPSourceMatchesModel : Bool := {b(facts['file_pp_source_matches_model'])}",
+            "/-- `_generate_code` / `SupportGenerator.generate_all` classify (reset+collect | collect | raise ValueError) and run",
+            "`for file_pp in file_pps: path = file_pp(path)` once, after the file is written. -/",
+            f"def generatorRunsFilePPsOnceInOrder : Bool := {b(facts['generator_runs_file_pps_once_in_order'])}",
+            "/-- Outside templates and filters, no code of the package looks at a path relative to the working directory, the working or",
+            "home directory, an undocumented environment variable, or a temporary-file name. -/",
+            f"def noUndeclaredAmbientInputs : Bool := {b(facts['no_undeclared_ambient_inputs'])}",
             "end NunavutVerif.Gen.TplFlows", ""]
     return "\n".join(out)
 
@@ -1536,7 +1932,7 @@ def main(argv=None) -> int:
         from nunavut.jinja.jinja2 import nodes
         scanner = Scanner(repo_src)
         facts = source_facts(repo_src)
-        info["facts"] = {k: (sorted(v) if isinstance(v, (set, list)) else v) for k, v in facts.items()}
+        info["facts"] = {k: (sorted(v, key=lambda x: json.dumps(x, sort_keys=True, default=str)) if isinstance(v, (set, list)) else v) for k, v in facts.items()}
         out = pathlib.Path(a.out)
         for lang in LANGS:
             conv = LangConv(lang, repo_src, scanner, facts, nodes)
